@@ -50,6 +50,8 @@ func main() {
 		os.Exit(mutant1(os.Args[2:]))
 	case "mutants":
 		os.Exit(mutants(os.Args[2:]))
+	case "benign":
+		os.Exit(benign(os.Args[2:]))
 	default:
 		usage()
 	}
@@ -360,4 +362,45 @@ func manifest() int {
 	b, _ := json.MarshalIndent(man, "", " ")
 	os.Stdout.Write(append(b, '\n'))
 	return 0
+}
+
+// benign runs every property on behaviour-preserving edits (mutants/benign.json):
+// none of them may produce a report (false-alarm battery; development aid and
+// part of the thorough-tier evidence of C11).
+func benign(args []string) int {
+	fs := flag.NewFlagSet("benign", flag.ExitOnError)
+	repo := fs.String("repo", envOr("VERIF_REPO", "/repo"), "")
+	verif := fs.String("verif", envOr("VERIF_DIR", defaultVerifDir()), "")
+	fs.Parse(args)
+	ms, err := props.LoadMutants(*verif, "benign")
+	if err != nil {
+		fmt.Println(err)
+		return 1
+	}
+	var ids []string
+	for k := range props.Registry {
+		ids = append(ids, k)
+	}
+	sort.Strings(ids)
+	rc := 0
+	for _, m := range ms {
+		alarms := 0
+		reps, status := props.RunMutantAll(*repo, ids, m)
+		if status != "" {
+			fmt.Printf("benign %-44s %s\n", m.Name, status)
+			rc = 1
+			continue
+		}
+		for _, id := range ids {
+			for _, rep := range reps[id] {
+				alarms++
+				fmt.Printf("   FALSE ALARM %s: %s\n", m.Name, rep)
+			}
+		}
+		if alarms > 0 {
+			rc = 1
+		}
+		fmt.Printf("benign %-44s alarms=%d\n", m.Name, alarms)
+	}
+	return rc
 }
